@@ -206,6 +206,9 @@ def _meddle(actions):
             sys.settrace(None)
         elif a == 'setprofile_none':
             sys.setprofile(None)
+        elif a == 'rm_profile_dir':
+            import shutil
+            shutil.rmtree('profdir', ignore_errors=True)
 _held = []          # threads parked by tests: (event, thread)
 
 
